@@ -24,6 +24,18 @@ CHECKS = {
         "on real values (roots, into_compact, elided_root, header root compared with the expression evaluated by the harness's own "
         "SHA-256), and recorded sessions of the real API are validated against the specification's actions.",
    note="hash functions are free constructors in the model; own SHA-256 in the harness; random field contents per length class."),
+ "C11": dict(
+   cat="model_checking", design="§4 C11",
+   technique="TLA+ state machine TxIn -> pset::Input -> extracted TxIn with id derivations as hash expressions, checked by TLC; "
+             "all abstract inputs and all JSON-contract text families emitted by TLC and replayed against the library with an "
+             "independent hash-expression evaluator",
+   text="TLC exhausts the (finite) space of index/flag/nonce/amount classes and checks that the derivation denotes the same "
+        "expression pair in all three representations, and defines the canonical JSON text; every abstract case is replayed on "
+        "real values (TxIn::issuance_ids, pset::Input::issuance_ids, from_tx/extract_tx, AssetId constructors, "
+        "ContractHash::from_json_contract over all key permutations and whitespace styles) against digests computed by the "
+        "harness's own SHA-256 from the specification's expressions.",
+   note="hash functions are free constructors in the model; own SHA-256 in the harness; txids/entropies random; JSON leaf values "
+        "restricted to strings, integers, booleans, null."),
 }
 NA_PENDING = "check not built yet in this round (planned, see DESIGN.md §4)"
 
